@@ -105,3 +105,37 @@ def run_harvest(out, sc, prop):
             pth.write_text(_json.dumps(recs[k:k + 1500], separators=(",", ":")))
             shards.append(pth)
     return validate(out, sc, "TraceUrl", prop, shards, "suite-harvest")
+
+
+def replay(out, sc, path):
+    """./check Cxx --replay <file>: re-execute the recorded call(s) of a replay file on the CURRENT tree (both back ends) and
+    validate the fresh observations with TLC.  Exit status as for a check.  (History / thread / allocation records have no
+    single-call replay: the whole check is re-run under the same seed.)"""
+    import json as _json
+    from ..core import run_driver
+    data = _json.loads(open(path).read())
+    prop = data["property"]
+    rec = data["violation"].get("record", {})
+    calls = [c for c in [rec.get("call")] + list(data.get("more") or []) if isinstance(c, dict) and not c.get("big")]
+    if not calls:
+        return None
+    c0 = calls[0]
+    if "prog" in c0:
+        driver, spec = "url", "TraceUrl"
+    elif "progs" in c0:
+        driver, spec = "cmp", "TraceUrl"
+    elif "alts" in c0:
+        driver, spec = "alt", "TraceUrl"
+    elif c0.get("kind") in ("quote", "unquote"):
+        driver, spec = "quote", "TraceQuote"
+        calls = [{"kind": c["kind"], "name": c["name"], "in": c["in"]} for c in calls]
+    else:
+        return None
+    cf_ = sc.work / "replay-calls.json"
+    cf_.write_text(_json.dumps(calls))
+    shards = []
+    for be in (("c",) if driver == "quote" else ("c", "py")):
+        shards += run_driver(sc, driver, {"mode": "file", "calls_file": str(cf_)}, "replay", backend=be, nslices=1)
+    validate(out, sc, spec, prop, shards, "replay")
+    out.evidence_suffix = ".replay"      # a replay never overwrites the check's evidence file
+    return out.finish(rule="replay of " + str(path))
